@@ -59,6 +59,8 @@ class LoaderTable:
         self.units = {}          # local name -> 'B' | 'Z'
         self.unit_switch = None  # dict(test, true={name: expr text}, false={name: expr text}, node)
         self.passthrough_entries = 0
+        c = src.module_assigns(CAT).get('INT16SCALE')
+        self.int16scale_is_float = isinstance(c, ast.Constant) and isinstance(c.value, float)
         self._extract()
 
     def _extract(self):
@@ -122,7 +124,7 @@ class LoaderTable:
             ev.bind_params(params)
             val = ev.run_body(node.body)
         return dict(value=val, raw=ev.raw, halos=ev.halos, frees=ev.frees, loader=idx[0], requested=name,
-                    impure=ev.impure)
+                    impure=ev.impure, promo=ev.promo)
 
 
 class _LoaderEval:
@@ -131,12 +133,54 @@ class _LoaderEval:
         self.env = {}
         self.raw, self.halos, self.frees = set(), set(), set()
         self.impure = []
+        self.promo = []          # integer-overflow risks: int16 raw data combined with a scalar before promotion to float
         self.pm = self.praw = self.phalos = None
 
     def bind_params(self, params):
         if len(params) != 3:
             raise AnalysisError('loader does not take (m, raw, halos)')
         self.pm, self.praw, self.phalos = params
+
+    def kind(self, n):
+        if isinstance(n, ast.Constant):
+            return 'N' if isinstance(n.value, int) and not isinstance(n.value, bool) else ('F' if isinstance(n.value, float) else 'X')
+        if isinstance(n, ast.Name):
+            if n.id in self.table.units:
+                return 'U'
+            if n.id == 'INT16SCALE':
+                return 'F' if self.table.int16scale_is_float else 'N'
+            return 'X'
+        if isinstance(n, ast.Subscript) and isinstance(n.value, ast.Name) and n.value.id == self.praw:
+            k = self.ev_quiet(n.slice)
+            return 'I16' if isinstance(k, str) and k.endswith('_i16') else 'F'
+        if isinstance(n, ast.Subscript) and isinstance(n.value, ast.Name) and n.value.id == self.phalos:
+            return 'F'
+        if isinstance(n, ast.BinOp):
+            return _kind_join(n.op, self.kind(n.left), self.kind(n.right), n, self._promo_sink(n))
+        if isinstance(n, ast.Call):
+            if isinstance(n.func, ast.Attribute) and n.func.attr in ('reshape', 'copy', 'view') :
+                return self.kind(n.func.value)
+            if isinstance(n.func, ast.Attribute) and n.func.attr == 'astype':
+                return 'F' if n.args and 'float' in unparse(n.args[0]) else 'X'
+            if dotted(n.func) in ('np.float32', 'np.float64', 'float', 'np.sqrt'):
+                return 'F'
+            return 'X'
+        if isinstance(n, ast.UnaryOp):
+            return self.kind(n.operand)
+        return 'X'
+
+    def _promo_sink(self, n):
+        class _S(list):
+            def append(s_, x, outer=self):
+                if x not in outer.promo:
+                    outer.promo.append(x)
+        return _S()
+
+    def ev_quiet(self, n):
+        saved = (set(self.raw), set(self.halos), set(self.frees), list(self.impure))
+        v = self.ev(n)
+        self.raw, self.halos, self.frees, self.impure = saved[0], saved[1], saved[2], saved[3]
+        return v
 
     def run_body(self, body):
         ret = None
@@ -257,6 +301,7 @@ class _LoaderEval:
             a, b = self.ev(n.left), self.ev(n.right)
             if isinstance(a, str) and isinstance(b, str) and isinstance(n.op, ast.Add):
                 return a + b
+            self.kind(n)
             if isinstance(a, Poly) and isinstance(b, Poly):
                 try:
                     if isinstance(n.op, ast.Add):
@@ -328,6 +373,24 @@ class _LoaderEval:
                 return self.ev(n.orelse)
             return Opq('ifexp')
         return Opq(type(n).__name__)
+
+
+def _kind_join(op, ka, kb, node, sink):
+    """Numeric kind of a binary operation. Kinds: I16 (int16 array straight from the file), F (float array
+    or float scalar), U (unit scalar from the header: may be a Python int), N (integer literal), X (other)."""
+    if 'F' in (ka, kb):
+        return 'F'
+    if isinstance(op, ast.Div):
+        return 'F'                      # true division always yields floats
+    if 'I16' in (ka, kb):
+        other = kb if ka == 'I16' else ka
+        if other in ('U', 'N', 'I16') and isinstance(op, (ast.Mult, ast.Add, ast.Sub, ast.Pow)):
+            sink.append(f'{unparse(node)}: int16 data combined with {"a header scalar" if other == "U" else "an integer"} before promotion to float '
+                        '(stays int16 and wraps when the scalar is an integer)')
+        return 'I16'
+    if 'U' in (ka, kb):
+        return 'U'
+    return ka if ka == kb else 'X'
 
 
 def _as_col(v, k):
